@@ -1,6 +1,7 @@
 import PromProofs.ExemplarsOrd
 import PromProofs.ExemplarsResize
 import PromProofs.ExemplarsSelect
+import PromProofs.ExemplarsLinksAdd
 /-
   C21 — Exemplar storage keeps the newest accepted exemplars in order.
   Property theorems about the transcribed `CircularExemplarStorage` (PromModel/Tsdb/Exemplars.lean).
@@ -220,11 +221,70 @@ theorem add_result_table (r : Ring) (s : Nat) (e : Ex) (hcap : r.exs.length ≠ 
 
 /-- The full invariant statement: in every reachable state every series has a well-formed list
     (acyclic, doubly linked, time non-decreasing, covering exactly the series' occupied slots, delimited
-    by its index entry). Proved below only for the fresh ring (`links_wellformed_new_partial`); the
-    preservation lemmas that exist are in PromProofs/ExemplarsLinks*.lean. On every generated history the
+    by its index entry). `links_wellformed_partial` proves it for all histories of `add` and window
+    changes from a fresh ring of any capacity; what is missing is preservation by `Resize`
+    (`copyExemplarRanges` relocating links and index entries). On every generated history the
     differential + judge check its observable consequences (Select output, accept/reject decisions). -/
 def links_wellformed_full : Prop := ∀ r, Reachable r → LinksWF r
 
 theorem links_wellformed_new_partial (c w : Int) : LinksWF (Ring.new c w) := linksWF_new c w
+
+/-- **`AddExemplar` preserves the link invariant** — all insertion cases (first, tip, tail, middle),
+    with eviction of the slot at `nextIndex` (same or other series, last exemplar of a series, the
+    insertion anchor itself) and without. -/
+theorem links_wellformed_add (r : Ring) (s : Nat) (e : Ex) (h : LinksWF r) (ho : RingOrd r) :
+    LinksWF (add r s e).1 := by
+  obtain ⟨k, acc, h1, _⟩ := ho
+  exact add_linksWF r s e h (by rcases h1 with h1 | h1; exact Or.inl h1; exact Or.inr h1.1)
+
+/-- States reachable without `Resize`. -/
+inductive ReachableNoResize : Ring → Prop
+  | new (c w : Int) : ReachableNoResize (Ring.new c w)
+  | add {r} (s : Nat) (e : Ex) : ReachableNoResize r → ReachableNoResize (add r s e).1
+  | window {r} (d : Int) : ReachableNoResize r → ReachableNoResize { r with window := d }
+
+theorem ReachableNoResize.reachable {r : Ring} (h : ReachableNoResize r) : Reachable r := by
+  induction h with
+  | new c w => exact .new c w
+  | add s e _ ih => exact .add s e ih
+  | window d _ ih => exact .window d ih
+
+theorem linkedFrom_window (r : Ring) (d : Int) : ∀ (c : List Nat) (p : Option Nat),
+    LinkedFrom { r with window := d } p c ↔ LinkedFrom r p c := by
+  intro c
+  induction c with
+  | nil => intro p; simp [LinkedFrom]
+  | cons a t ih =>
+    intro p
+    cases t with
+    | nil => simp [LinkedFrom, Ring.getN]
+    | cons b t' =>
+      simp only [LinkedFrom]
+      rw [ih (some a)]
+      simp [Ring.getN]
+
+/-- **`links_wellformed`, proved for every history of adds and window changes** (any capacity, any
+    number of series, eviction and wrap-around included); see `links_wellformed_full` for the rest. -/
+theorem links_wellformed_partial {r : Ring} (h : ReachableNoResize r) : LinksWF r := by
+  induction h with
+  | new c w => exact linksWF_new c w
+  | add s e hr ih => exact links_wellformed_add _ s e ih (ringOrd_reachable hr.reachable)
+  | window d _ ih =>
+    obtain ⟨ch, hch⟩ := ih
+    refine ⟨ch, fun s => ?_⟩
+    have h0 := hch s
+    exact ⟨h0.nodup, h0.covers, (linkedFrom_window _ d _ _).mpr h0.linked, h0.sorted, h0.index⟩
+
+/-- Consequence for queries: in every state reachable by adds and window changes, every entry that
+    `Select` returns is non-empty, inside `[start, stop]`, in non-decreasing timestamp order, and is
+    exactly the set of stored exemplars of that series in range. -/
+theorem select_sorted_in_range_reachable_partial {r : Ring} (h : ReachableNoResize r)
+    (start stop : Int) (sel : Nat → Bool) (s : Nat) (xs : List Ex) (hm : (s, xs) ∈ select r start stop sel) :
+    xs ≠ [] ∧ (xs.map (·.ts)).Pairwise (· ≤ ·) ∧ (∀ x ∈ xs, start ≤ x.ts ∧ x.ts ≤ stop) ∧
+    ∃ c : List Nat, (∀ i, i ∈ c ↔ i < r.exs.length ∧ (r.getN i).ref = some s) ∧ c.Nodup ∧
+      xs = (c.map fun i => (r.getN i).ex).filter (inRange start stop) := by
+  obtain ⟨ch, hch⟩ := links_wellformed_partial h
+  obtain ⟨_, hne, hx, hs, hr⟩ := (select_result r start stop sel).2 s xs (ch s) hm (hch s)
+  exact ⟨hne, hs, hr, ch s, (hch s).covers, (hch s).nodup, hx⟩
 
 end Prom.C21
